@@ -1,9 +1,8 @@
 /-
   OFV.Lemmas.ParseMsg — openflow13.go, port.go, multipart.go, nxt_message.go, bundles.go decoders and Parse never spin
-  on a frame of at most 65535 bytes held in a buffer of at most 65535 bytes, given
-    * that the Ethernet decoder (PacketIn payload, proved elsewhere) does not spin, and
-    * `FlowStatsInstrLoopOK`: the instruction loop of a FlowStats record (the one loop here that advances by an
-      unchecked `Len()`) terminates.
+  on a well-formed slice, given
+    * that the Ethernet decoder (PacketIn payload, proved in C08) does not spin, and
+    * `FlowStatsInstrLoopOK`: the instruction loop of a FlowStats record terminates (proved in ParseFlowStats).
 -/
 import OFV.Lemmas.ParseInstr
 set_option linter.unusedSimpArgs false
@@ -170,8 +169,8 @@ theorem BundlePropertyExperimenter_unmarshal_post (recv : V) (d : Slice) (hd : d
 
 /-- BundleAdd: the embedded message is parsed by `parseF`, the property loop advances by at least 8 bytes -/
 theorem BundleAdd_unmarshalWith_ns (parseF : Slice → R V) (childLen : MsgLenF)
-    (hparse : ∀ d : Slice, d.WF → d.buf.length ≤ 65535 → NS (parseF d))
-    (recv : V) (data : Slice) (hlen : data.len ≤ 65528) (hcap : data.buf.length ≤ 65535) :
+    (hparse : ∀ d : Slice, d.WF → NS (parseF d))
+    (recv : V) (data : Slice) (hlen : data.len ≤ 65528) :
     NS (BundleAdd.unmarshalWith parseF childLen recv data) := by
   unfold BundleAdd.unmarshalWith
   split
@@ -183,12 +182,10 @@ theorem BundleAdd_unmarshalWith_ns (parseF : Slice → R V) (childLen : MsgLenF)
       simp only []
       split
       · exact post_err
-      · apply post_bind (P := fun d => d.WF ∧ d.buf.length ≤ 65535) ?_ ?_
-        · refine ⟨(ns_sliceR _ _ _).1, fun d hd => ⟨(Slice.sliceR_wf _ _ _ _ hd).1, ?_⟩⟩
-          have := sliceR_inv _ _ _ _ hd
-          omega
+      · apply post_bind (P := fun d => d.WF) ?_ ?_
+        · exact ⟨(ns_sliceR _ _ _).1, fun d hd => (Slice.sliceR_wf _ _ _ _ hd).1⟩
         intro d _ hd
-        apply post_bind_ns (hparse d hd.1 hd.2); intro m _
+        apply post_bind_ns (hparse d hd); intro m _
         split
         · exact post_err
         · split
@@ -212,18 +209,18 @@ theorem BundleAdd_unmarshalWith_ns (parseF : Slice → R V) (childLen : MsgLenF)
   · exact post_panic
 
 theorem decodeVendorDataWith_ns (parseF : Slice → R V) (childLen : MsgLenF)
-    (hparse : ∀ d : Slice, d.WF → d.buf.length ≤ 65535 → NS (parseF d))
-    (ty : Nat) (data : Slice) (hlen : data.len ≤ 65528) (hcap : data.buf.length ≤ 65535) :
+    (hparse : ∀ d : Slice, d.WF → NS (parseF d))
+    (ty : Nat) (data : Slice) (hlen : data.len ≤ 65528) :
     NS (decodeVendorDataWith parseF childLen ty data) := by
   unfold decodeVendorDataWith
   post_auto [ControllerID_unmarshal_ns, TLVTableMod_unmarshal_ns, TLVTableReply_unmarshal_ns, BundleControl_unmarshal_ns]
-  exact BundleAdd_unmarshalWith_ns parseF childLen hparse _ _ hlen hcap
+  exact BundleAdd_unmarshalWith_ns parseF childLen hparse _ _ hlen
 
 /-- the experimenter message (decoded into `new(VendorHeader)` as Parse does): its payload `data[16:Header.Length]`
     is at most 65519 bytes long -/
 theorem VendorHeader_unmarshalWith_ns (decVD : Nat → Slice → R V)
-    (hdec : ∀ ty (d : Slice), d.len ≤ 65528 → d.buf.length ≤ 65535 → NS (decVD ty d))
-    (data : Slice) (hcap : data.buf.length ≤ 65535) : NS (VendorHeader.unmarshalWith decVD VendorHeader.zero data) := by
+    (hdec : ∀ ty (d : Slice), d.len ≤ 65528 → NS (decVD ty d))
+    (data : Slice) : NS (VendorHeader.unmarshalWith decVD VendorHeader.zero data) := by
   simp only [VendorHeader.unmarshalWith, VendorHeader.zero]
   split
   · exact post_err
@@ -234,12 +231,12 @@ theorem VendorHeader_unmarshalWith_ns (decVD : Nat → Slice → R V)
     apply post_bind_ns (ns_u32From _ _); intro _ _
     apply post_bind_ns (ns_u32From _ _); intro t _
     split
-    · apply post_bind (P := fun s => s.len ≤ 65528 ∧ s.buf.length ≤ 65535) ?_ ?_
+    · apply post_bind (P := fun s => s.len ≤ 65528) ?_ ?_
       · refine ⟨(ns_sliceR _ _ _).1, fun s hs => ?_⟩
         have := sliceR_inv _ _ _ _ hs
         omega
       intro s _ hs
-      apply post_bind_ns (hdec _ s hs.1 hs.2); intro _ _
+      apply post_bind_ns (hdec _ s hs); intro _ _
       post_auto
     · post_auto
 
@@ -269,11 +266,11 @@ theorem PortStats_unmarshal_post (recv : V) (d : Slice) :
 
 /-- FlowStats, given that its instruction loop terminates -/
 theorem FlowStats_unmarshalP_post (recv : V) (d : Slice)
-    (hFS : ∀ limit n0 is0, 48 ≤ n0 → NS (FlowStats.decodeInstrs d limit n0 is0)) :
+    (hFS : ∀ limit n0 is0, NS (FlowStats.decodeInstrs d limit n0 is0)) :
     Post (FlowStats.unmarshalP recv d) (fun p => ∃ fs, p.1 = .obj "FlowStats" fs) := by
   unfold FlowStats.unmarshalP
   post_auto [Match_unmarshalP_ns, Match_lenM_ns, hFS]
-  all_goals first | omega | exact post_ok ⟨_, rfl⟩
+  exact post_ok ⟨_, rfl⟩
 
 theorem FlowStats_lenM_ns (v : V) : NS (FlowStats.lenM v) := by
   unfold FlowStats.lenM; post_auto [Match_lenM_ns, mapM2_ns, Instruction_lenM_ns]
@@ -292,7 +289,7 @@ theorem anyLenM_record_ns (r : V)
   · exact (ns_same _ _ : NS (QueueStats.lenM _))
 
 theorem decodeRecord_post (ty : Nat) (d : Slice)
-    (hFS : ∀ limit n0 is0, 48 ≤ n0 → NS (FlowStats.decodeInstrs d limit n0 is0)) :
+    (hFS : ∀ limit n0 is0, NS (FlowStats.decodeInstrs d limit n0 is0)) :
     Post (MultipartReply.decodeRecord ty d) (fun p => NS (anyLenM p.1)) := by
   unfold MultipartReply.decodeRecord
   split
@@ -317,13 +314,11 @@ theorem decodeRecord_post (ty : Nat) (d : Slice)
 
 /-- the hypothesis under which the record loop of a FlowStats reply is known to terminate (see C07) -/
 def FlowStatsInstrLoopOK : Prop :=
-  ∀ (d : Slice) (limit n0 : Nat) (is0 : List V), d.WF → d.buf.length ≤ 65519 → 48 ≤ n0 →
-    NS (FlowStats.decodeInstrs d limit n0 is0)
+  ∀ (d : Slice) (limit n0 : Nat) (is0 : List V), d.WF → NS (FlowStats.decodeInstrs d limit n0 is0)
 
 /-- MultipartReply (decoded into `new(MultipartReply)` as Parse does): the record loop refuses a record of length 0 and
     runs below the 16-bit header length -/
-theorem MultipartReply_unmarshalWith_ns (hFS : FlowStatsInstrLoopOK) (data : Slice) (hwf : data.WF)
-    (hcap : data.buf.length ≤ 65535) :
+theorem MultipartReply_unmarshalWith_ns (hFS : FlowStatsInstrLoopOK) (data : Slice) (hwf : data.WF) :
     NS (MultipartReply.unmarshalWith anyLenM MultipartReply.zero data) := by
   simp only [MultipartReply.unmarshalWith, MultipartReply.zero]
   apply post_bind (msgTryU_post _ _ _ (fun h => Header.length h ≤ 65535) (Header_unmarshal_post _ _) (by decide))
@@ -336,12 +331,10 @@ theorem MultipartReply_unmarshalWith_ns (hFS : FlowStatsInstrLoopOK) (data : Sli
   · refine (msgLoopW_post _ _ _ (fun s => 16 ≤ s.n) (Header.length h) ?_ _ _ (Nat.le_refl 16) ?_).ns
     · intro s hI hc
       simp only [decide_eq_true_eq] at hc
-      apply post_bind (P := fun d => d.WF ∧ d.buf.length ≤ 65519) ?_ ?_
-      · refine ⟨(ns_fromR _ _).1, fun d hd => ⟨(Slice.fromR_wf data hwf _ _ hd).1, ?_⟩⟩
-        have := fromR_cap _ _ _ hd
-        omega
+      apply post_bind (P := fun d => d.WF) ?_ ?_
+      · exact ⟨(ns_fromR _ _).1, fun d hd => (Slice.fromR_wf data hwf _ _ hd).1⟩
       intro d _ hd
-      apply post_bind (decodeRecord_post _ _ (fun l n i hn => hFS d l n i hd.1 hd.2 hn)); intro p _ hp
+      apply post_bind (decodeRecord_post _ _ (fun l n i => hFS d l n i hd)); intro p _ hp
       obtain ⟨r, e'⟩ := p
       simp only [] at hp ⊢
       apply post_bind_ns hp; intro q _
@@ -360,10 +353,6 @@ theorem MultipartReply_unmarshalWith_ns (hFS : FlowStatsInstrLoopOK) (data : Sli
 
 /-! ### Parse -/
 
-/-- the property of a frame the results below depend on: a well-formed slice (len ≤ cap) of a buffer of at most 65535
-    bytes -/
-def SmallFrame (b : Slice) : Prop := b.WF ∧ b.buf.length ≤ 65535
-
 theorem recoverR_ns (r : R V) (h : NS r) : NS (recoverR r) := by
   unfold recoverR
   split
@@ -378,8 +367,8 @@ theorem post_ite {α} {c : Prop} [Decidable c] {x y : R α} {Q : α → Prop}
 
 /-- one level of Parse never spins when the nested Parse does not -/
 theorem parseStep_ns (hEth : ∀ recv (d : Slice), d.WF → NS (PEthernet.unmarshal recv d)) (hFS : FlowStatsInstrLoopOK)
-    (self : Slice → R V) (hself : ∀ d : Slice, d.WF → d.buf.length ≤ 65535 → NS (self d))
-    (b : Slice) (hb : SmallFrame b) : NS (parseStep self b) := by
+    (self : Slice → R V) (hself : ∀ d : Slice, d.WF → NS (self d))
+    (b : Slice) (hb : b.WF) : NS (parseStep self b) := by
   unfold parseStep
   apply post_bind_ns (ns_byteAt _ _); intro tb _
   extract_lets t
@@ -389,31 +378,31 @@ theorem parseStep_ns (hEth : ∀ recv (d : Slice), d.WF → NS (PEthernet.unmars
     exact post_ite (fun _ => VendorError_unmarshal_ns _ _) (fun _ => ns_pure _)
   refine post_ite (fun _ => Header_unmarshal_ns _ _) (fun _ => ?_)
   refine post_ite (fun _ => VendorHeader_unmarshalWith_ns _
-      (fun ty d hl hc => decodeVendorDataWith_ns self anyLenM hself ty d hl hc) _ hb.2) (fun _ => ?_)
+      (fun ty d hl => decodeVendorDataWith_ns self anyLenM hself ty d hl) _) (fun _ => ?_)
   refine post_ite (fun _ => Header_unmarshal_ns _ _) (fun _ => ?_)
   refine post_ite (fun _ => SwitchFeatures_unmarshal_ns _ _) (fun _ => ?_)
   refine post_ite (fun _ => SwitchConfig_unmarshal_ns _ _) (fun _ => ?_)
   refine post_ite (fun _ => SwitchConfig_unmarshal_ns _ _) (fun _ => ?_)
-  refine post_ite (fun _ => PacketIn_unmarshal_ns hEth _ _ hb.1) (fun _ => ?_)
+  refine post_ite (fun _ => PacketIn_unmarshal_ns hEth _ _ hb) (fun _ => ?_)
   refine post_ite (fun _ => FlowRemoved_unmarshal_ns _ _) (fun _ => ?_)
   refine post_ite (fun _ => PortStatus_unmarshal_ns _ _) (fun _ => ?_)
   refine post_ite (fun _ => FlowMod_unmarshal_ns _ _) (fun _ => ?_)
   refine post_ite (fun _ => ns_pure _) (fun _ => ?_)
   refine post_ite (fun _ => MultipartRequest_unmarshal_ns _ _) (fun _ => ?_)
-  exact post_ite (fun _ => MultipartReply_unmarshalWith_ns hFS _ hb.1 hb.2) (fun _ => post_err)
+  exact post_ite (fun _ => MultipartReply_unmarshalWith_ns hFS _ hb) (fun _ => post_err)
 
 theorem parseD_ns (hEth : ∀ recv (d : Slice), d.WF → NS (PEthernet.unmarshal recv d)) (hFS : FlowStatsInstrLoopOK) :
-    ∀ depth (b : Slice), SmallFrame b → NS (parseD depth b) := by
+    ∀ depth (b : Slice), b.WF → NS (parseD depth b) := by
   intro depth
   induction depth with
   | zero => intro b _; exact post_panic
   | succ n ih =>
     intro b hb
     unfold parseD
-    exact recoverR_ns _ (parseStep_ns hEth hFS _ (fun d h1 h2 => ih d ⟨h1, h2⟩) b hb)
+    exact recoverR_ns _ (parseStep_ns hEth hFS _ (fun d h1 => ih d h1) b hb)
 
 theorem parse_ns (hEth : ∀ recv (d : Slice), d.WF → NS (PEthernet.unmarshal recv d)) (hFS : FlowStatsInstrLoopOK)
-    (depth : Nat) (b : Slice) (hb : SmallFrame b) : NS (parse depth b) := by
+    (depth : Nat) (b : Slice) (hb : b.WF) : NS (parse depth b) := by
   unfold parse
   exact parseD_ns hEth hFS _ b hb
 
